@@ -499,6 +499,7 @@ type sfOp struct {
 	NoRefresh bool     // the session carries no refresh token (legal for every provider)
 	Wrapper   int      // which upstream's provider wrapper the call goes to (proxy side, multi-upstream scenarios)
 	Allowed   []string // that upstream's allowed groups: part of what a validation/refresh asks about
+	InGrace   bool     // the session is already being kept alive by the grace period (an earlier check met an outage)
 }
 
 func allowedSuffix(allowed []string) string {
@@ -555,6 +556,9 @@ func newSession(o sfOp, thread int) *sessions.SessionState {
 	}
 	if o.NoRefresh {
 		s.RefreshToken = ""
+	}
+	if o.InGrace {
+		s.GracePeriodStart = base.Add(-time.Minute)
 	}
 	return s
 }
@@ -672,11 +676,17 @@ func sfScenarios(c *fw.Ctx) ([]sfGroupScenario, []sfWrapScenario) {
 	nr := func(o sfOp) sfOp { o.NoRefresh = true; return o }
 	rd := func(code, redirect string) sfOp { return sfOp{Endpoint: "Redeem", Token: code, Email: redirect} }
 	up := func(o sfOp, w int, allowed ...string) sfOp { o.Wrapper, o.Allowed = w, allowed; return o }
+	ig := func(o sfOp) sfOp { o.InGrace = true; return o }
 	wraps := []sfWrapScenario{
 		// (first, so that it is reached whatever the later scenarios cost) a timer, if the wrapper has one, may fire
 		// while a call is in flight: every caller still receives the execution's result
 		{Name: "proxy/validate-while-a-timer-may-fire", Side: "proxy", Timers: 1, Ops: [][]sfOp{{v("T")}, {v("T")}}, Bound: 2},
 		{Name: "auth/validate-while-a-timer-may-fire", Side: "auth", Timers: 1, Ops: [][]sfOp{{v("T")}, {v("T")}}, Bound: 2},
+		// a validation is in flight, the same token is revoked meanwhile, and the token is validated again
+		{Name: "auth/validate-revoke-validate-same-token", Side: "auth", Ops: [][]sfOp{{v("T")}, {r("Revoke", "T")}, {v("T")}}, Bound: b3},
+		// sessions already inside the grace period (an outage that goes on): identical checks still merge
+		{Name: "proxy/validate-session-already-in-grace", Side: "proxy", Grace: true, Ops: [][]sfOp{{ig(v("T"))}, {ig(v("T"))}}, Bound: -1},
+		{Name: "proxy/refresh-session-already-in-grace", Side: "proxy", Grace: true, Ops: [][]sfOp{{ig(r("RefreshSession", "R"))}, {ig(r("RefreshSession", "R"))}}, Bound: -1},
 		{Name: "proxy/two-upstreams-same-token", Side: "proxy", Ops: [][]sfOp{{up(v("T"), 0, "admins")}, {up(v("T"), 1, "staff")}, {up(v("T"), 0, "admins")}}, Bound: b3},
 		{Name: "proxy/two-upstreams-refresh", Side: "proxy", Ops: [][]sfOp{{up(r("RefreshSession", "R"), 0, "admins")}, {up(r("RefreshSession", "R"), 1, "staff")}}, Bound: -1},
 		{Name: "proxy/validate-without-refresh-token", Side: "proxy", Ops: [][]sfOp{{nr(v("T"))}, {nr(v("U"))}, {nr(v("T"))}}, Bound: b3},
